@@ -116,39 +116,46 @@ inlines the callee with the closure bound, `param` runs the bound closure;
 an `unlock` inside a returning branch releases the lock for that branch only
 (the main path keeps it) unless the lock was itself taken inside a returning
 branch (`xl`); deferred unlocks run last in LIFO order. -/
-def flatEvs (rec : Option String → String → List Act) (cb : Option String) :
+def flatEvs (maps : Bool) (rec : Option String → String → List Act) (cb : Option String) :
     List Ev → List String → List String → List Act
   | [], defers, _ => defers.map .rel
   | (k, a, b, ex) :: r, defers, xl =>
-    if k = "lock" then .acq a :: flatEvs rec cb r defers (if ex then a :: xl else xl)
+    if k = "lock" then .acq a :: flatEvs maps rec cb r defers (if ex then a :: xl else xl)
     else if k = "unlock" then
-      (if ex && !xl.contains a then flatEvs rec cb r defers xl
-       else .rel a :: flatEvs rec cb r defers (xl.erase a))
-    else if k = "defer" then flatEvs rec cb r (a :: defers) (xl.erase a)
-    else if k = "call" then rec none a ++ flatEvs rec cb r defers xl
-    else if k = "callcb" then rec (some b) a ++ flatEvs rec cb r defers xl
-    else if k = "param" then (match cb with | some c => rec none c | none => []) ++ flatEvs rec cb r defers xl
-    else if k = "rd" then .rd (a, b) :: flatEvs rec cb r defers xl
-    else if k = "wr" then .wr (a, b) :: flatEvs rec cb r defers xl
-    else flatEvs rec cb r defers xl
+      (if ex && !xl.contains a then flatEvs maps rec cb r defers xl
+       else .rel a :: flatEvs maps rec cb r defers (xl.erase a))
+    else if k = "defer" then flatEvs maps rec cb r (a :: defers) (xl.erase a)
+    else if k = "call" then rec none a ++ flatEvs maps rec cb r defers xl
+    else if k = "callcb" then rec (some b) a ++ flatEvs maps rec cb r defers xl
+    else if k = "param" then (match cb with | some c => rec none c | none => []) ++ flatEvs maps rec cb r defers xl
+    else if k = "mcall" then (if maps then rec none a else []) ++ flatEvs maps rec cb r defers xl
+    else if k = "mrd" then (if maps then .rd (a, b) :: flatEvs maps rec cb r defers xl else flatEvs maps rec cb r defers xl)
+    else if k = "mwr" then (if maps then .wr (a, b) :: flatEvs maps rec cb r defers xl else flatEvs maps rec cb r defers xl)
+    else if k = "rd" then .rd (a, b) :: flatEvs maps rec cb r defers xl
+    else if k = "wr" then .wr (a, b) :: flatEvs maps rec cb r defers xl
+    else flatEvs maps rec cb r defers xl
 
 /-- marker for "inlining depth exhausted": an unguardable write, so that no
 check can pass by truncation -/
 def fuelMark : Act := .wr ("?fuel", "")
 
-def flatFn (tbl : List (String × List Ev)) : Nat → Option String → String → List Act
+def flatFn (maps : Bool) (tbl : List (String × List Ev)) : Nat → Option String → String → List Act
   | 0, _, _ => [fuelMark]
   | n + 1, cb, fn =>
     match tbl.lookup fn with
     | none => []
     | some evs =>
       -- a directly self-recursive call adds no new events: it is not inlined again
-      flatEvs (fun c g => if g = fn then [] else flatFn tbl n c g) cb evs [] []
+      flatEvs maps (fun c g => if g = fn then [] else flatFn maps tbl n c g) cb evs [] []
 
 def depth : Nat := 16
 
 /-- the thread that calls `fn` once -/
-def Impl.trace (fn : String) : List Act := flatFn Facts.C15.skeletons depth none fn
+def Impl.trace (fn : String) : List Act := flatFn false Facts.C15.skeletons depth none fn
+
+/-- the same call with the operations on the `sync.Map` fields of `File` (and the helpers that
+only perform such operations) included: used by the check-then-act analysis only -/
+def Impl.traceM (fn : String) : List Act := flatFn true Facts.C15.skeletons depth none fn
 
 /-- every return leaves no *non-deferred* lock behind: walking the skeleton, at a
 `ret` inside a returning branch the explicitly locked, not yet released locks of
@@ -238,6 +245,34 @@ def Impl.predictsRace (x : Loc) (f g : String) : Bool :=
 /-- locations a function touches without their guard -/
 def Impl.unguarded (fn : String) : List Loc :=
   ((accesses [] (Impl.trace fn)).filter (fun a => !a.2.2)).map (·.1) |>.eraseDups
+
+/-- which (load site, store site) pairs on one `sync.Map` form a check-then-act idiom: the same
+function ("load or create"), or a scan in a helper whose result decides the store -/
+def relatedSites (l s : String) : Bool :=
+  l == s ||
+  [("readXML", "readBytes"), ("countMedia", "addMedia"), ("countDrawings", "drawingLoader"),
+   ("relsReader", "addRels"), ("drawingParser", "addDrawingPicture"),
+   ("drawingLoader", "addDrawingPicture")].contains (l, s)
+
+/-- check-then-act instances on the `sync.Map` fields of `File`: every `Store`/`Delete` on a map
+paired with the NEAREST preceding related `Load`/`Range` on the same map in the same call, and
+the locks held CONTINUOUSLY from that load to the store.  Rows: (map, function of the load,
+function of the store, common locks).  `pend` = loads seen so far (most recent first) with the
+locks held ever since. -/
+def mapPairs (maps : List String) :
+    List String → List (Loc × List String) → List Act → List (String × String × String × List String)
+  | _, _, [] => []
+  | h, pend, .acq l :: r => mapPairs maps (l :: h) pend r
+  | h, pend, .rel l :: r => mapPairs maps (h.erase l) (pend.map fun p => (p.1, p.2.erase l)) r
+  | h, pend, .rd x :: r =>
+    -- only the most recent load of a (map, site) is kept: `pend` stays small
+    if maps.contains x.1 then mapPairs maps h ((x, h) :: pend.filter (fun p => p.1 != x)) r else mapPairs maps h pend r
+  | h, pend, .wr x :: r =>
+    if maps.contains x.1 then
+      (match pend.find? (fun p => p.1.1 == x.1 && relatedSites p.1.2 x.2) with
+       | some p => [(x.1, p.1.2, x.2, p.2)]
+       | none => []) ++ mapPairs maps h pend r
+    else mapPairs maps h pend r
 
 /-! ## Spec: sequential cell store and witness search for linearizability -/
 
